@@ -194,6 +194,10 @@ func (t *Transport) getConn(addr string) (pc *persistConn, err error) {
 	}
 	t.connsMu.Lock()
 	defer t.connsMu.Unlock()
+	if atomic.LoadUint32(&t.closed) > 0 {
+		// A closed Transport neither dials nor starts its housekeeping again.
+		return nil, ErrShutdown
+	}
 	if !t.running {
 		t.once.Do(func() {
 			t.idleConns = make(map[string]*connQueue)
